@@ -249,8 +249,12 @@ def gen_case(rng, spec=None):
     if r < 0.4:
         keep = [i for i in ids if rng.random() < 0.5]
         rng.shuffle(keep)
-        if rng.random() < 0.1:
-            keep.insert(rng.randint(0, len(keep)), 'nope')
+        if rng.random() < 0.12:
+            # an unknown id: unrelated, or an extension / prefix / case variant of a real one
+            base = rng.choice(ids)
+            unk = rng.choice(['nope', base + '0', base + '5', base + base, base[:-1] or 'q', base.upper(), ' ' + base])
+            if unk not in ids:
+                keep.insert(rng.randint(0, len(keep)), unk)
         return {'kind': 'ids', 'spec': spec, 'axis': axis, 'keep': keep, 'invert': rng.random() < 0.4,
                 'inplace': rng.random() < 0.5, 'ctype': rng.choice(['list', 'tuple', 'set', 'array', 'dictkeys'])}
     if r < 0.75:
